@@ -124,6 +124,7 @@ void case_impl(Ctx &c, int variant) {
     } else if (op == 6) { // rewrite 1014h
       if (!(mode == 2 || mode == 3)) return;
       uint32_t nv = c.t.coin() ? (cob ^ 0x80000000u) : ((c.t.coin() ? 0x80000000u : 0) | (0x80u + c.t.below(0x700)));
+      if (variant == 3 && c.t.chance(70)) nv = (c.t.chance(200) ? 0x80000000u : 0) | c.t.below(0x80);   // mode before-start: also CAN-IDs below 80h - with bit 31 set (8000 0000h is the usual "not used") they are values like any other, without it they are refused
       uint32_t code = cl.write(0x1014, 0, nv, 4);
       bool ok;
       if (!(cob & 0x80000000u)) ok = (nv & 0x1FFFFFFFu) == (cob & 0x1FFFFFFFu); else ok = nv >= 0x80;
